@@ -128,7 +128,11 @@ func i36BuildBase(c *fw.Ctx, b *i36Base) {
 	g.MustRun("tag", "-a", "-m", "tb", "tb", blob)
 	g.MustRun("tag", "-a", "-m", "tu", "tu", b.u)
 	g.MustRun("tag", "-a", "-m", "tn", "tn", "refs/tags/ta")
-	for _, t := range []string{"ta", "tt", "tb", "tu", "tn"} {
+	// tm: a tag of a tag whose inner tag object has no reference of its own (it travels only through tm)
+	g.MustRun("tag", "-a", "-m", "tmi", "tmi", ids[0])
+	g.MustRun("tag", "-a", "-m", "tm", "tm", "refs/tags/tmi")
+	g.MustRun("tag", "-d", "tmi")
+	for _, t := range []string{"ta", "tt", "tb", "tu", "tn", "tm"} {
 		b.tags["refs/tags/"+t] = g.MustRun("rev-parse", "refs/tags/"+t).S()
 	}
 	// the lightweight tag sits on commit 1 when there is one: a non-root commit
@@ -802,7 +806,7 @@ func runC36(c *fw.Ctx) {
 	c.Bound("tag_modes", i36TagNames)
 	c.Bound("pairings", []string{i36GG, i36GX, i36XG})
 	c.Bound("priors", "empty; every ancestor-closed subset fetched; diverged extra commit on {all, all-but-last}; shallow depth 1 of {all, all-but-last}; shallow depth 2 of all (n>=3)")
-	c.SetRule("every DAG with <= max_commits commits x 2 timestamp orders as server (branch on every tip, main, 6 tags incl. tree/blob/nested/tag-only history); every derived prior client state x refspec x tag mode x depth x prune (when something is prunable) x protocol x pairing, plus clone variants; each request is first run git->git (oracle for the shallow file and conformance of the ref model), then on go-git; fsck --connectivity-only + ref model + shallow equality; non-trivial = the request transferred objects or changed refs/shallow; a class is (pairing, protocol, op, prior kind, refspec, tags, depth, prune, #refs changed, |shallow|, outcome)")
+	c.SetRule("every DAG with <= max_commits commits x 2 timestamp orders as server (branch on every tip, main, 7 tags incl. tree/blob/nested (inner tag with and without a ref of its own)/tag-only history); every derived prior client state x refspec x tag mode x depth x prune (when something is prunable) x protocol x pairing, plus clone variants; each request is first run git->git (oracle for the shallow file and conformance of the ref model), then on go-git; fsck --connectivity-only + ref model + shallow equality; non-trivial = the request transferred objects or changed refs/shallow; a class is (pairing, protocol, op, prior kind, refspec, tags, depth, prune, #refs changed, |shallow|, outcome)")
 	c.Assume("git 2.39.5 fetch/clone/upload-pack/fsck are the reference; the client-side prior states are produced by real git; a failed request is not a violation (statement covers successful fetches) and is only counted; auto-followed tags (mode following) are admissible iff they carry the server's value")
 
 	r := &i36Run{c: c, home: filepath.Join(c.Scratch(), "home"), self: iSelf(), failed: map[string]int{}, failMsg: map[string]string{}, hung: map[string]int{}}
